@@ -1,5 +1,6 @@
 import PwVerif.Proofs.Signal
 import PwVerif.Proofs.Signal2
+import PwVerif.Proofs.BridgeC02C06
 /-!
 # C02 — Execution signals: any-of / all-of triggers fire exactly once; flows follow them
 
@@ -626,6 +627,49 @@ theorem C02_replace_reversed_witness :
     (compositeRun (nodeSem termNodes) ((joinWiring.replace true 0 4).toGraph id [4] (List.range 20)) 100
       (S.init Store.init (fun _ => []))).fired = [4, 1, 2, 3] := by decide +kernel
 
+/-! ## children on executors in a hand-wired flow: completions interleaved anywhere, also inside a local child's run
+
+`FlowExec.xstep` (Model/FlowExec.lean, built on `callRun` / `deliver` of this model) is the composite's loop with children
+out on an executor: `start`, `deliver`, `complete k` (the done-callback of `k`: result processed, signals QUEUED), `finish`.
+`XAct2` adds landings while a local child's function is running (`startMid ks`, `deliverMid ks`), `flat` lists them in the
+order in which they touch the queue. `qstep` is the plain queue interpreter with the same actions. -/
+
+open PwVerif.FlowExec in
+/-- QUEUE DISCIPLINE FOR EVERY INTERLEAVING OF COMPLETIONS: for every signal graph satisfying `WF`, every set of executor
+children, every initial store and EVERY sequence of actions the loop can perform — completions at any point, also in the
+middle of a local child's run — the transcribed loop and the plain interpreter (signals of a landing job enter the one FIFO
+at the moment it lands) have invoked the same `run()`s in the same order, hold the same store (outputs, calls, both
+provenances, what is still out), recorded the same errors and have the same entries pending -/
+theorem C02_exec_refines_queue {E : Type} (nodes : Nat → Node) (onExec : Nat → Bool) (exc : Nat → Nat → E) (refusal : Nat → E)
+    (g : Graph) (wf : WF g) (st : Store) (acts : List XAct2) (x' : X E)
+    (hx : xrun nodes onExec exc refusal g (X.init st) (flat acts) = some x') :
+    ∃ q', qrun nodes onExec exc refusal g (QX.init st) (flat acts) = some q' ∧
+      x'.s.fired = q'.s.fired ∧ x'.s.store = q'.s.store ∧ x'.s.errs = q'.s.errs ∧
+      q'.s.fifo = x'.s.queue.map (fun p => (some p.1, p.2)) ∧ x'.phase = q'.phase := by
+  obtain ⟨q', hq, hrel⟩ := xrun_sim nodes onExec exc refusal g wf (flat acts) _ x' _ (relX_init g st) hx
+  exact ⟨q', hq, hrel.rel.fired, hrel.rel.store, hrel.rel.errs, by simpa [lift] using hrel.rel.fifo, hrel.phase⟩
+
+/-- `slow` (0, on the executor) `>> after_slow` (3); `tick` (1) `>> work` (2) `>> after_work` (4); starting nodes 0, 1 -/
+def execGraph : FinGraph :=
+  { conns := [[⟨3, false⟩], [], [], [],   [⟨2, false⟩], [], [], [],   [⟨4, false⟩], [], [], [],
+              [], [], [], [],   [], [], [], []],
+    accConns := [[], [], [], [], []], labs := List.range 20, starters := [0, 1] }
+
+/-- `slow` lands while `work`'s function is running -/
+def execActs : List FlowExec.XAct2 :=
+  [.base .begin, .base .start, .base .start, .deliverMid [0], .base .deliver, .base .deliver, .base .finish]
+
+open PwVerif.FlowExec in
+/-- non-vacuity and SEEDED CHANGE C02-12 (signals of a landing on another thread are parked until the top of the loop's
+next iteration): `slow` completed before `work` did, so the queue prescribes slow, tick, work, after_slow, after_work;
+with parking, `work`'s own signal gets ahead: …, after_work, after_slow -/
+theorem C02_parked_emissions_witness :
+    ((xrun termNodes (fun i => i == 0) (fun _ _ => 0) (fun _ => 0) execGraph.toGraph (X.init Store.init : X Nat)
+        (flat execActs)).map fun x => (x.s.fired, x.phase)) = some ([0, 1, 2, 3, 4], 2) ∧
+    ((prun termNodes (fun i => i == 0) (fun _ _ => 0) (fun _ => 0) execGraph.toGraph
+        ({ x := X.init Store.init, parked := [] } : PX Nat) execActs).map fun p => (p.x.s.fired, p.x.phase))
+      = some ([0, 1, 2, 4, 3], 2) := by decide +kernel
+
 end PwVerif.C02
 
 #print axioms PwVerif.C02.C02_any
@@ -663,3 +707,5 @@ end PwVerif.C02
 #print axioms PwVerif.C02.C02_pull_partial_restore_witness
 #print axioms PwVerif.C02.C02_replace_keeps_order
 #print axioms PwVerif.C02.C02_replace_reversed_witness
+#print axioms PwVerif.C02.C02_exec_refines_queue
+#print axioms PwVerif.C02.C02_parked_emissions_witness
